@@ -43,6 +43,7 @@ class World:
         self.next_fd = 10
         self.log = []  # captured logging records (level, message)
         self.events = []  # environment-visible trace: (thread, kind, detail)
+        self.nprog = 0  # number of events other than select/poll
         self.faults = {}  # (sock name, op) -> list of errno-or-None consumed per call
         self.observe_time = False  # time() is a scheduling point only when clock events exist
         self.sticky = (errno.ECONNRESET, errno.EPIPE, errno.ENOTCONN, errno.ESHUTDOWN, errno.ECONNABORTED)
@@ -54,6 +55,8 @@ class World:
         return fd
 
     def ev(self, kind, detail=None):
+        if kind != "select" and kind != "poll":
+            self.nprog += 1
         self.events.append((self.sched.me_name(), kind, detail))
 
 
